@@ -93,8 +93,8 @@ MEXPRS = {
             ("<hitems>", [("bind", "x", "<h>"), ("bind", "r", "<hitems>")])],
     # two levels deep: <elem> -> <open> -> <id> "(" ... ")" <id> <- <close>
     "elem": [("<elem>", [("bind", "o", "<id>"), "(", "<content>", ")", ("bind", "c", "<id>")]),
-             ("<elem>", [("bind", "o", "<id>"), "(", ("bind", "m", "<content>"), ")", "<id>"]),
-             ("<elem>", [("bind", "p", "<open>"), ("bind", "m", "<content>"), ("bind", "q", "<close>")])],
+             ("<elem>", [("bind", "o", "<id>"), "(", ("bind", "ct", "<content>"), ")", "<id>"]),
+             ("<elem>", [("bind", "p", "<open>"), ("bind", "ct", "<content>"), ("bind", "q", "<close>")])],
 }
 # match expressions that reach two derivation levels deep in the older grammars
 MEXPRS["assgn"].append(("<stmt>", [("bind", "l", "<var>"), "=", ("bind", "r", "<rhs>")]))
